@@ -295,13 +295,18 @@ func roundtrip(c *Case, e influxql.Expr) {
 }
 
 func yyParse(q string) (cond influxql.Expr, field influxql.Expr, err error) {
+	return yyParseP(q, nil)
+}
+
+// yyParseP: the statement parser with bound parameters ($name in the text, values from the request's params)
+func yyParseP(q string, params map[string]interface{}) (cond influxql.Expr, field influxql.Expr, err error) {
 	defer func() {
 		if r := recover(); r != nil {
 			err = fmt.Errorf("panic: %v", r)
 		}
 	}()
 	sc := influxql.NewScanner(strings.NewReader(q))
-	yp := influxql.NewYyParser(sc, nil)
+	yp := influxql.NewYyParser(sc, params)
 	yp.ParseTokens()
 	qu, err := yp.GetQuery()
 	if err != nil {
@@ -991,9 +996,22 @@ func main() {
 		}
 		emit(c)
 	}
+	// bound parameters: the value of $p comes from the request, not from the statement text
+	paramCase := func(cond string, val interface{}) {
+		q := "select v from m where " + cond
+		c := Case{Kind: "yy", Src: runes(cond), SrcText: fmt.Sprintf("%s  [params: p=%q]", q, fmt.Sprint(val))}
+		ce, _, err := yyParseP(q, map[string]interface{}{"p": val})
+		if err == nil && ce != nil {
+			roundtrip(&c, ce)
+		}
+		emit(c)
+	}
 	// 1. witness corpus first
 	for _, s := range witnessTexts {
 		textCase(s)
+	}
+	for _, v := range []interface{}{"plain", "it's", "a\rb", "x\x00y", "two\nlines", "back\\slash", 2.5, int64(-7), true} {
+		paramCase("h = $p", v)
 	}
 	for _, s := range witnessYY {
 		yyCase(s, false)
